@@ -53,7 +53,17 @@ func cmdOpaque(args []string) {
 		for rep := int64(0); rep < 3; rep++ {
 			base, o := run(nil, rep)
 			ev := map[string]interface{}{"op": "opaque", "id": i, "kind": sc.Kind, "tag": sc.Tag, "unann": o.Unannounced, "draws": len(o.Draws),
-				"probed": 0, "outcomes": 0, "rereads": 0, "baseKind": base.Kind}
+				"probed": 0, "outcomes": 0, "rereads": 0, "baseKind": base.Kind, "cap": "", "len": 0, "coins": 0}
+			if sc.Kind == "wl" && sc.WL != nil {
+				// what the specification needs for the information rule: the binary choices that WERE announced
+				coins := 0
+				for _, d := range o.Draws {
+					if d.N == 2 {
+						coins++
+					}
+				}
+				ev["cap"], ev["len"], ev["coins"] = sc.WL.Cap, sc.WL.Len, coins
+			}
 			if o.Unannounced > 0 && probedCells < 4 {
 				probedCells++
 				// vary the first unannounced word, everything else fixed
